@@ -49,6 +49,24 @@ class Universe:
                 out[os.path.relpath(os.path.join(root, f), self.base)] = "f"
         return out
 
+    def rmtree_order(self, rel):
+        """the order in which shutil.rmtree will remove the descendants of `rel` (directory listing order,
+        depth first, a directory after its content)"""
+        out = []
+
+        def walk(path, relp):
+            with os.scandir(path) as it:
+                entries = list(it)
+            for e in entries:
+                r = relp + "/" + e.name
+                if e.is_dir(follow_symlinks=False):
+                    walk(e.path, r)
+                out.append(r)
+
+        if os.path.isdir(self.p(rel)):
+            walk(self.p(rel), rel)
+        return out
+
     def cleanup(self):
         shutil.rmtree(self.base, ignore_errors=True)
 
@@ -76,7 +94,7 @@ class Universe:
             elif k == "rmdir":
                 os.rmdir(self.p(op[1]))
             elif k == "rmtree":
-                if not os.path.isdir(self.p(op[1])):
+                if not os.path.isdir(self.p(op[1])) or os.path.islink(self.p(op[1])):
                     return False
                 shutil.rmtree(self.p(op[1]))
             elif k == "rename":
